@@ -133,8 +133,7 @@ pub fn trunc_check<T: Model + BinaryDeserializer>(v: &T) {
     if r.n == 0 {
         return;
     }
-    let k = sym::usize_();
-    sym::assume(k < r.n);
+    let k = sym::index_below(r.n);
     match desert_core::deserialize::<T>(&r.b[..k]) {
         Ok(w) => {
             std::mem::forget(w);
